@@ -135,7 +135,8 @@ MESSAGES = ["boom", "", "two\nlines", "trailing newline\n", "Ünïcödé ✓ mes
             "lone < sign and > too", "escaped \\<b> tag", "percent %s {braces}", "x" * 300,
             "The \"--</error>\" option does not exist.", "<error>already styled</error>", "tab\there", "escaped \\</info> closing tag",
             "never closed <fg=chartreuse> colour", "<bg=nope>", "option <options=sparkle> unknown",
-            "<info>valid tag left open", "<comment>still open", "page one\x0cpage two", "unit\x1fsep and nel\x85here"]
+            "<info>valid tag left open", "<comment>still open", "page one\x0cpage two", "unit\x1fsep and nel\x85here",
+            "<class 'm.build.<locals>.Plugin'> is not callable", "in <module>: <lambda> failed near <genexpr>"]
 
 
 def interacting_pair(r):
